@@ -26,7 +26,11 @@ Fixpoint show_val (v : pyval) : string :=
   | PStr s => "'" ++ s ++ "'"
   | PList l => "[" ++ join "," (map show_val l) ++ "]"
   | PTuple l => "(" ++ join "," (map show_val l) ++ ")"
-  | PDict d => "{" ++ join "," (map (fun kv => match kv with (k, x) => show_val k ++ ":" ++ show_val x end) d) ++ "}"
+  | PDict d =>
+      (* dictionaries are compared with ==: the order of the keys is not an observation *)
+      "{" ++ join "," (map (fun kv => fst kv ++ ":" ++ snd kv)
+                           (sort_by (fun a b => str_leb (fst a) (fst b))
+                                    (map (fun kv => match kv with (k, x) => (show_val k, show_val x) end) d))) ++ "}"
   | POther n => "<obj>"
   end.
 
